@@ -155,13 +155,31 @@ func init() {
 		if s := noPanic(r); s != "" {
 			return s
 		}
-		if op.int(0) == 2 && !scanVerbOK(op.str(0)) {
-			if r.Err == nil {
-				return fmt.Sprintf("Sscanf with format %q succeeded", op.str(0))
+		width := -1
+		if op.int(0) == 2 {
+			ok, w := scanVerb(op.str(0))
+			if !ok {
+				if r.Err == nil {
+					return fmt.Sprintf("Sscanf with format %q succeeded", op.str(0))
+				}
+				return ""
 			}
-			return ""
+			width = w
 		}
 		tok := firstToken(string(op.bytes(0)))
+		if width == 0 {
+			return "" // fmt treats an explicit zero width in its own way: not judged
+		}
+		if width > 0 && width < len(tok) {
+			// package fmt hands Scan at most width runes of the token
+			if !scanAlphabet(tok) {
+				return ""
+			}
+			tok = tok[:width]
+		}
+		if tok != "" && !scanAlphabet(tok) {
+			return judgeScan(tok, x.mode, r.Err, r.D[0])
+		}
 		if !scanAlphabet(tok) {
 			return "" // the token is cut by fmt's rules, not by white space: not judged
 		}
@@ -183,22 +201,36 @@ func init() {
 }
 
 // scanVerbOK reports whether a Sscanf format is a single supported verb
-// directive ("%v", "%e", "%5g", ...).
+// directive ("%v", "%e", ...); a width ("%5g") is not accepted here.
 func scanVerbOK(f string) bool {
+	ok, w := scanVerb(f)
+	return ok && w < 0
+}
+
+// scanVerb parses "%[width]verb" with a supported verb; width -1 if absent.
+func scanVerb(f string) (bool, int) {
 	if len(f) < 2 || f[0] != '%' {
-		return false
+		return false, -1
 	}
 	switch f[len(f)-1] {
 	case 'e', 'E', 'f', 'F', 'g', 'G', 'v':
 	default:
-		return false
+		return false, -1
 	}
+	w := -1
 	for _, c := range f[1 : len(f)-1] {
 		if c < '0' || c > '9' {
-			return false
+			return false, -1
+		}
+		if w < 0 {
+			w = 0
+		}
+		w = w*10 + int(c-'0')
+		if w > 1<<20 {
+			return false, -1
 		}
 	}
-	return len(f) == 2 // a width cuts the token: not modelled by the reference
+	return true, w
 }
 
 func firstToken(s string) string {
@@ -225,6 +257,67 @@ func scanAlphabet(tok string) bool {
 		}
 	}
 	return true
+}
+
+// scanModel describes what Decimal.Scan must do with the first
+// white-space delimited token of its input, following its documented
+// behaviour: an optional sign; then either the three letters of Inf or NaN
+// (any case, nothing else) or the longest run of characters out of
+// [0-9 . e E + - _], which must be a well-formed numeral. text is the part of
+// the token that Scan consumes as the literal; mustErr says that no reading
+// of the token as a Decimal exists.
+func scanModel(tok string) (text string, lit ref.Literal, mustErr bool) {
+	s := tok
+	sign := ""
+	if s != "" && (s[0] == '+' || s[0] == '-') {
+		sign, s = s[:1], s[1:]
+	}
+	if s == "" {
+		return tok, ref.Literal{}, true
+	}
+	r1, n1 := utf8.DecodeRuneInString(s)
+	if r1 == 'i' || r1 == 'I' || r1 == 'n' || r1 == 'N' {
+		r2, n2 := utf8.DecodeRuneInString(s[n1:])
+		r3, n3 := utf8.DecodeRuneInString(s[n1+n2:])
+		if n2 == 0 || n3 == 0 {
+			return tok, ref.Literal{}, true
+		}
+		word := strings.ToLower(string([]rune{r1, r2, r3}))
+		if (word != "inf" && word != "nan") || r2 >= utf8.RuneSelf || r3 >= utf8.RuneSelf {
+			return tok, ref.Literal{}, true
+		}
+		text = sign + s[:n1+n2+n3]
+		return text, ref.ParseLiteral(text, ref.LitOpts{NoLongInf: true}), false
+	}
+	i := 0
+	for i < len(s) {
+		c := s[i]
+		if c >= '0' && c <= '9' || c == '.' || c == 'e' || c == 'E' || c == '-' || c == '+' || c == '_' {
+			i++
+			continue
+		}
+		break
+	}
+	if i == 0 {
+		return tok, ref.Literal{}, true
+	}
+	text = sign + s[:i]
+	return text, ref.ParseLiteral(text, ref.LitOpts{NoLongInf: true, NoSpecial: true}), false
+}
+
+// judgeScan judges one call of Scan on a token that is not purely made of
+// Scan's own alphabet (see scanModel): an error return is always acceptable
+// (what follows the consumed part is none of Scan's business, and package fmt
+// may complain about it), a value must be the reference value.
+func judgeScan(tok string, mode uint8, err error, got D) string {
+	text, lit, mustErr := scanModel(tok)
+	if err != nil {
+		return ""
+	}
+	if mustErr {
+		return fmt.Sprintf("Scan accepted %.60q as %s; it is neither a numeral nor Inf/NaN", tok, NumOf(got))
+	}
+	return judgeParse(text, lit, mode, nil, true, got, false)
 }
 
 // ---------- C06: shortest text ----------
@@ -297,6 +390,9 @@ var textProducers = []struct {
 	{"Sprintf(%G)", 'G', func(d D) string { return fmt.Sprintf("%G", d) }},
 	{"Sprintf([]%v)", 'g', func(d D) string { s := fmt.Sprintf("%v", []D{d}); return s[1 : len(s)-1] }},
 	{"Sprintf(struct%v)", 'g', func(d D) string { s := fmt.Sprintf("%v", struct{ X D }{d}); return s[1 : len(s)-1] }},
+	{"Sprintln", 'g', func(d D) string { s := fmt.Sprintln(d); return s[:len(s)-1] }},
+	{"Sprint(d,d)", 'g', func(d D) string { s := fmt.Sprint(d, d); return s[:len(s)/2] }},
+	{"Sprintf(map%v)", 'g', func(d D) string { s := fmt.Sprintf("%v", map[int]D{1: d}); return s[len("map[1:") : len(s)-1] }},
 }
 
 // textConsumers read a numeral back.
@@ -468,8 +564,11 @@ func init() {
 		if i := strings.IndexAny(tok, " \t\n"); i >= 0 {
 			tok = tok[:i]
 		}
-		if !scanAlphabet(tok) {
-			return ""
+		if tok != "" && !scanAlphabet(tok) {
+			if r.B[0] {
+				return "" // a read error was injected: not judged for such tokens
+			}
+			return judgeScan(tok, x.mode, r.Err, r.D[0])
 		}
 		if tok == "" {
 			if r.Err == nil {
